@@ -313,6 +313,17 @@ def run (sp : Space) (s : State) : List Op → State
   | [] => s
   | op :: ops => run sp (step sp s op).1 ops
 
+/-- `for a in cell.agents: a.remove()` — emptying a cell by iterating over the *copy* `cell.agents` hands out (the loop
+    stops at the first `remove()` that raises): the removals are those of the agents listed when the loop started, in order -/
+def removeEach (sp : Space) : State → List Aid → State × Res
+  | s, [] => (s, .ok)
+  | s, a :: as =>
+    match step sp s (.remove a) with
+    | (s', .ok) => removeEach sp s' as
+    | (s', r) => (s', r)
+
+def clearCell (sp : Space) (s : State) (c : Cid) : State × Res := removeEach sp s (s.occ c)
+
 /-! ### histories that also edit connections (`Cell.connect` / `Cell.disconnect` after construction) -/
 
 /-- `space[c].connect(space[c2], key)`: `connections[key] = other` on cell `c` only -/
